@@ -34,6 +34,13 @@ def gen(ctx):
         c["T2"] = T2
         c["kind"] = "ev1"
         yield c
+    # inexact floating-point rules on narrow float dtypes (oracle only: no exact model of float arithmetic):
+    # the split law must hold bit for bit because every step reads the stored (rounded) previous row
+    for _ in range(ctx.n(60, 600)):
+        N = rng.randint(3, 16)
+        yield dict(kind="evf", dim=rng.choice([1, 1, 2]), N=N, dtype=rng.choice(["float32", "float16", "float32", "float64"]),
+                   H=rng.randint(1, 3), T1=rng.randint(1, 6), T2=rng.randint(1, 6), memo=rng.choice(["False", "True", "recursive_lit"]),
+                   seed=rng.randrange(10 ** 6))
     for modname in ("c05_2d", "c05_block"):
         try:
             m = __import__("harness.props." + modname, fromlist=["gen"])
@@ -53,13 +60,32 @@ def _mod(c):
 
 
 def line(c):
+    if c["kind"] == "evf":
+        return None
     m = _mod(c)
     if m:
         return m.line(c)
     return ev1.line(c)
 
 
+def _float_case(c):
+    import cellpylib as cpl
+    rng = np.random.RandomState(c["seed"])
+    memo = ev1.memo_value(c["memo"])
+    if c["dim"] == 1:
+        ca = rng.random_sample((c["H"], c["N"])).astype(c["dtype"])
+        rule = lambda n, cc, t: 3.9 * float(np.mean(n)) * (1.0 - float(np.mean(n)))          # noqa: E731
+        ev = lambda a, T: cpl.evolve(a, timesteps=T, apply_rule=rule, r=1, memoize=memo)          # noqa: E731
+    else:
+        ca = rng.random_sample((c["H"], 3, max(3, c["N"] // 3))).astype(c["dtype"])
+        rule = lambda n, cc, t: 3.9 * float(np.mean(n)) * (1.0 - float(np.mean(n)))          # noqa: E731
+        ev = lambda a, T: cpl.evolve2d(a, timesteps=T, apply_rule=rule, r=1, memoize=memo)        # noqa: E731
+    return ca, ev
+
+
 def impl(c):
+    if c["kind"] == "evf":
+        return "n/a"
     m = _mod(c)
     if m:
         return m.impl(c)
@@ -71,6 +97,23 @@ def compare(c, a, b):
 
 
 def oracle(c):
+    if c["kind"] == "evf":
+        ca, ev = _float_case(c)
+        snap = ca.tobytes()
+        first = ev(ca, c["T1"])
+        second = ev(first, c["T2"])
+        once = ev(ca.copy(), c["T1"] + c["T2"] - 1)
+        if ca.tobytes() != snap:
+            return "caller's array modified"
+        if first.dtype != ca.dtype or once.dtype != ca.dtype:
+            return "result dtype %s differs from the automaton's %s" % (first.dtype, ca.dtype)
+        if first[:c["H"]].tobytes() != snap:
+            return "given rows not returned unchanged"
+        if second.shape != once.shape or second.tobytes() != once.tobytes():
+            return "%s %dD: evolving %d then %d steps differs from %d at once (max |diff| %g)" % (
+                c["dtype"], c["dim"], c["T1"], c["T2"], c["T1"] + c["T2"] - 1,
+                float(np.max(np.abs(second.astype(np.float64) - once.astype(np.float64)))))
+        return None
     m = _mod(c)
     if m:
         return m.oracle(c)
@@ -108,6 +151,8 @@ def oracle(c):
 
 
 def nontrivial(c, ans):
+    if c["kind"] == "evf":
+        return c["T1"] >= 2 and c["T2"] >= 2
     if c["kind"] != "ev1":
         return _mod(c).nontrivial(c, ans)
     return ans.startswith("ok") and (len(c["hist"]) >= 2 or (c["T"] >= 2 and c["T2"] >= 2))
